@@ -197,3 +197,40 @@ Lemma w_unsorted_ok :
   same_strands [OLoc 1 2 S_plus 0 None; OLoc 5 6 S_minus 0 None] = false /\
   wf_seq_but_case [(K_id, OStr [])] N_nt = true /\ upper (bs "acgU-n"%bs) = bs "ACGU-N"%bs.
 Proof. vm_compute. repeat split; reflexivity. Qed.
+(* ---- LocationTuple(locs) for ANY argument (locations given as lists are coerced first) ---------------------------------------- *)
+Lemma bind_ok_inv {A B} (r : res A) (f : A -> res B) y : bind r f = Ok y -> exists a, r = Ok a /\ f a = Ok y.
+Proof. destruct r as [a|e]; [intros H; exists a; split; [reflexivity|exact H]|discriminate]. Qed.
+Lemma construct_loc_is_loc d x : construct_loc d = Ok x -> is_loc x = true.
+Proof.
+  unfold construct_loc. destruct (negb (only_keys SJSON_INIT_Location d)); [discriminate|].
+  destruct (lookup K_start d) as [[]|]; try discriminate. destruct (lookup K_stop d) as [[]|]; try discriminate.
+  destruct (Z.geb z z0); [discriminate|]. intros H.
+  apply bind_ok_inv in H. destruct H as [s [_ H]]. apply bind_ok_inv in H. destruct H as [df [_ H]].
+  apply bind_ok_inv in H. destruct H as [m [_ H]]. injection H as <-. reflexivity.
+Qed.
+Lemma coerce_loc_is_loc o x : coerce_loc o = Ok x -> is_loc x = true.
+Proof.
+  destruct o; try discriminate.
+  - cbn [coerce_loc]. destruct (loc_of_list l) as [y|] eqn:E; [|discriminate]. intros H. injection H as <-.
+    unfold loc_of_list in E. destruct l as [|a [|b rest]]; try discriminate E.
+    destruct rest as [|s [|d [|m [|? ?]]]]; try discriminate E; apply (construct_loc_is_loc _ _ E).
+  - intros H. injection H as <-. reflexivity.
+Qed.
+Lemma mapM_coerce_locs l l1 : mapM coerce_loc l = Ok l1 -> forallb is_loc l1 = true.
+Proof.
+  revert l1. induction l as [|x r IH]; intros l1 H; [injection H as <-; reflexivity|].
+  rewrite mapM_cons in H. apply bind_ok_inv in H. destruct H as [y [Hy H]]. apply bind_ok_inv in H. destruct H as [ys [Hys H]].
+  injection H as <-. cbn [forallb]. rewrite (coerce_loc_is_loc _ _ Hy), (IH ys Hys). reflexivity.
+Qed.
+Theorem locationtuple_ordered_any : forall l l', location_tuple l = Ok l' ->
+  l' <> [] /\ forallb is_loc l' = true /\ same_strands l' = true /\ sorted_by (loc_order l') l' = true /\ location_tuple l' = Ok l'.
+Proof.
+  intros l l' H. unfold location_tuple in H. destruct l as [|x r]; [discriminate H|].
+  apply bind_ok_inv in H. destruct H as [l1 [Hc H]]. pose proof (mapM_coerce_locs _ _ Hc) as Hl1.
+  assert (Hne : l1 <> []).
+  { intros ->. rewrite mapM_cons in Hc. apply bind_ok_inv in Hc. destruct Hc as [y [_ Hc]]. apply bind_ok_inv in Hc.
+    destruct Hc as [ys [_ Hc]]. discriminate Hc. }
+  assert (T : location_tuple l1 = Ok l').
+  { rewrite (location_tuple_locs l1 Hne Hl1). destruct (same_strands l1); [exact H|discriminate H]. }
+  destruct (locationtuple_ordered l1 l' Hl1 T) as [A [B [C [D [E _]]]]]. repeat split; assumption.
+Qed.
